@@ -13,6 +13,9 @@ LP/CertSound.vos LP/CertSound.vok LP/CertSound.required_vos: LP/CertSound.v LP/C
 LP/Unique.vo LP/Unique.glob LP/Unique.v.beautified LP/Unique.required_vo: LP/Unique.v LP/CertSound.vo
 LP/Unique.vio: LP/Unique.v LP/CertSound.vio
 LP/Unique.vos LP/Unique.vok LP/Unique.required_vos: LP/Unique.v LP/CertSound.vos
+LP/LibSolution.vo LP/LibSolution.glob LP/LibSolution.v.beautified LP/LibSolution.required_vo: LP/LibSolution.v LP/CertSound.vo
+LP/LibSolution.vio: LP/LibSolution.v LP/CertSound.vio
+LP/LibSolution.vos LP/LibSolution.vok LP/LibSolution.required_vos: LP/LibSolution.v LP/CertSound.vos
 LP/User.vo LP/User.glob LP/User.v.beautified LP/User.required_vo: LP/User.v LP/ILP.vo
 LP/User.vio: LP/User.v LP/ILP.vio
 LP/User.vos LP/User.vok LP/User.required_vos: LP/User.v LP/ILP.vos
